@@ -14,6 +14,14 @@ UNIVERSE = {
 CTXS = ["segwitv0", "tap", "legacy", "bare"]
 
 
+# composite (larger than the node bound) sampling of Gen_Sat: keep every stride-th composite
+COMP_STRIDE = {"quick": {"sat": (5, 20), "other": (9, 30)}, "thorough": {"sat": (2, 12), "other": (3, 30)}}
+
+
+def gen_cfg_sat(u, ctx, maxnodes, stride, seed):
+    return gen_cfg(u, ctx, maxnodes) + ["  CompStride = %d" % stride[0], "  CompKeep = %d" % stride[1], "  CompSeed = %d" % seed]
+
+
 def gen_cfg(u, ctx, maxnodes=None):
     return ["CONSTANTS", '  Ctx = "%s"' % ctx, "  KeyIds = %s" % u["KeyIds"], "  HashLeaves <- c_HashLeaves",
             "  Afters = %s" % u["Afters"], "  Olders = %s" % u["Olders"], "  MultiKs <- c_MultiKs",
@@ -24,13 +32,13 @@ def gen_defs(u):
     return ["c_HashLeaves == %s" % u["HashLeaves"], "c_MultiKs == %s" % u["MultiKs"]]
 
 
-def generate(wd, tier, ctxs):
+def generate(wd, tier, ctxs, seed=1):
     u = UNIVERSE[tier]
     outs = {}
 
     def one(ctx):
         name = "Gen_Sat_%s" % ctx
-        write_module(wd, name, "Gen_Sat", gen_defs(u), gen_cfg(u, ctx))
+        write_module(wd, name, "Gen_Sat", gen_defs(u), gen_cfg_sat(u, ctx, u["MaxNodes"][ctx], COMP_STRIDE[tier]["sat"], seed))
         out = os.path.join(wd, "cases_%s.ndjson" % ctx)
         r = tlc(wd, name, name + ".cfg", env={"OUT": out}, workers=1, heap="6g", timeout=3000)
         g = r.tagged("GEN")
@@ -51,7 +59,7 @@ def run(tier, seed, ctxs=CTXS, wd=None, with_mc=True):
     wd = wd or workdir("sat_" + tier)
     build_harness()
     t0 = time.time()
-    gens = generate(wd, tier, ctxs)
+    gens = generate(wd, tier, ctxs, seed)
     stats = {"cases": 0, "events": 0, "results": 0, "ok_results": 0, "none_results": 0, "states": 0,
              "transitions": 0, "per_ctx": {}, "samples": []}
     verdicts = []
